@@ -132,5 +132,18 @@ func ReplayCborDec(cs *DecCase, relaxed bool, maxDepth int64) (*run.Finding, int
 		got, _ := model.Project(n)
 		return fail("accepted", "decoded as "+got.String()), 1
 	}
-	return nil, 1
+	// A refused input leaves nothing behind: the next Decode (of {"a": 1}) gives what it gives alone.
+	pn, perr, pp := DecodeCbor([]byte{0xa1, 0x61, 0x61, 0x01}, opts, basicnode.Prototype.Any)
+	if pp != nil || perr != nil {
+		return fail("next-decode-differs", fmt.Sprintf("after this input was refused (%v), decoding a16161 01 gave err=%v panic=%v", err, perr, pp)), 2
+	}
+	if v, e := model.Project(pn); e != nil || v.String() != cborProbeValue {
+		return fail("next-decode-differs", fmt.Sprintf("after this input was refused (%v), decoding a16161 01 gave %v (%v)", err, v, e)), 2
+	}
+	return nil, 2
 }
+
+var cborProbeValue = func() string {
+	v, _ := model.Project(cborProbe)
+	return v.String()
+}()
